@@ -59,6 +59,9 @@ def run(ctx):
         if nz:
             ctx.sample({"files": [f["name"] for f in c["files"]], "order": c.get("order"),
                         "violations": io.get("violations")[:4], "summary": io.get("summary")}, limit=4)
+    lost_error(ctx)
+    facts(ctx)
+    procs_and_concurrency(ctx, [c for c in cases if not c.get("order") and not c.get("perm_input")], impl)
     # property predicate on the implementation alone: all runs of one workspace give the same verdict
     for w, runs in byw.items():
         ref = runs[0][1]
@@ -68,3 +71,76 @@ def run(ctx):
                     ctx.fail("two runs of the same workspace differ in %s" % k, kernel.slim(c), None,
                              {"first": ref.get(k), "this": io.get(k), "order": c.get("order")})
                     break
+
+
+def lost_error(ctx):
+    """SelectProto tie: a worker errs while the others succeed, and the main goroutine is held before its final
+    `select` until every worker is done, so that errCh and doneCh are both ready (the schedule that loses the error
+    if `select` may return the report). Every run must return the error."""
+    if not ctx.gated:
+        ctx.notes.append("schedule gates could not be inserted (anchors missing in linter.go): select schedule not forced")
+    rng = ctx.rng("boom")
+    cases = []
+    n = 24 if ctx.quick else 120
+    for k in range(n):
+        files = kernel.gen_files(rng, 1, 4)
+        bad = rng.randrange(len(files))
+        files[bad]["content"] += "# BOOM\n"
+        cases.append({"id": k, "op": "kernel.lint", "files": files, "user": None, "params": kernel.gen_params(rng, 1.0),
+                      "prefix": "", "collect": False, "export": False, "boom": True, "selectWaitMs": 120,
+                      "vcatx": True})
+    impl = ctx.impl(cases, procs=12)
+    lost = 0
+    for c in cases:
+        io = impl[c["id"]].get("out") or {}
+        ctx.seen(c, ("boom", c["id"]))
+        ctx.count("boom:" + ("error-returned" if "error" in io else "error-lost"))
+        if "error" not in io:
+            lost += 1
+            ctx.fail("an evaluation error of one file was dropped: Lint returned a report (schedule: all workers done "
+                     "before the final select)", kernel.slim(c), "C01-lost-error", {"summary": io.get("summary")})
+    return lost
+
+
+def facts(ctx):
+    """structural facts of the current linter.go the SelectProto / merge models rely on (go/ast)"""
+    r = ctx.impl([{"id": 0, "op": "facts.linter"}])[0].get("out") or {}
+    want = {"sharedWritesOutsideLock": 0, "errChBuffered": True, "finalSelect": True, "doneRepollsErrCh": True}
+    ctx.seen({"facts": r}, ("facts",))
+    bad = {k: r.get(k) for k, v in want.items() if r.get(k) != v}
+    if bad or not r.get("sharedWrites"):
+        ctx.brk("linter.go lintWithRegoRules structure ~ SelectProto/merge model (lock discipline, buffered errCh, "
+                "doneCh case re-polls errCh)", {"op": "facts.linter"}, r, want)
+    ctx.notes.append("facts.linter: %s" % r)
+
+
+def procs_and_concurrency(ctx, bases, ref_impl):
+    """same workspaces under GOMAXPROCS 1/2/16 and as 4 concurrent Lint calls in one process"""
+    import os
+    rng = ctx.rng("procs")
+    pick = rng.sample(bases, min(len(bases), 12 if ctx.quick else 80))
+    for procs in ("1", "2", "16"):
+        env = dict(os.environ)
+        env["GOMAXPROCS"] = procs
+        sub = [dict(c, id=i, enabled=False) for i, c in enumerate(pick)]
+        res = ctx.impl(sub, env=env, procs=6)
+        for c0, c in zip(pick, sub):
+            a = (ref_impl[c0["id"]].get("out") or {})
+            b = (res[c["id"]].get("out") or {})
+            ctx.seen(c, ("procs", procs, c0["id"]))
+            ctx.count("GOMAXPROCS=" + procs)
+            for k in ("violations", "notices", "summary", "aggregates"):
+                if a.get(k) != b.get(k):
+                    ctx.fail("verdict differs under GOMAXPROCS=%s in %s" % (procs, k), kernel.slim(c0), None,
+                             {"ref": a.get(k), "this": b.get(k)})
+                    break
+    conc = [dict(c, id=i, op="kernel.concurrent", n=4) for i, c in enumerate(pick[:6 if ctx.quick else 40])]
+    res = ctx.impl(conc, procs=3)
+    for c in conc:
+        outs = res[c["id"]].get("out") or []
+        ctx.seen(c, ("conc", c["id"]))
+        ctx.count("concurrent-lints")
+        for o in outs[1:]:
+            if o != outs[0]:
+                ctx.fail("concurrent Lint calls in one process disagree", kernel.slim(c), None, {"a": outs[0], "b": o})
+                break
